@@ -639,6 +639,220 @@ func c13RunN3(e *c13Env) {
 	default:
 		c.Ok("C13-N3", fname+"/once", fd.Pos(), "sync.Once guard and io.EOF return precede the pull")
 	}
+	// (5) the error of the row handler is tested before the next pull / any return
+	{
+		var bad ast.Node
+		var badPath []ast.Node
+		nCalls := 0
+		ast.Inspect(fd.Body, func(n ast.Node) bool {
+			if _, isLit := n.(*ast.FuncLit); isLit {
+				return false
+			}
+			call, ok := n.(*ast.CallExpr)
+			if !ok {
+				return true
+			}
+			if fn := Callee(info, call); fn == nil || (fn != handleM && fn != ignoreM) {
+				return true
+			}
+			nCalls++
+			pt, ok := FindNode(g, call)
+			if !ok {
+				bad = call
+				return true
+			}
+			var v types.Object
+			if as, isAs := pt.B.Nodes[pt.I].(*ast.AssignStmt); isAs && len(as.Lhs) == 1 && len(as.Rhs) == 1 && ast.Unparen(as.Rhs[0]) == ast.Expr(call) {
+				v = objOf(as.Lhs[0])
+			}
+			if v == nil {
+				if bad == nil {
+					bad = call
+				}
+				return true
+			}
+			tested := func(x ast.Node) bool {
+				be, ok := x.(*ast.BinaryExpr)
+				if !ok || (be.Op != token.NEQ && be.Op != token.EQL) {
+					return false
+				}
+				return (objOf(be.X) == v && isNilIdent(info, be.Y)) || (objOf(be.Y) == v && isNilIdent(info, be.X))
+			}
+			target := func(x ast.Node) bool {
+				if x == ast.Node(pull) {
+					return true
+				}
+				_, isRet := x.(*ast.ReturnStmt)
+				return isRet
+			}
+			if path := PathAvoiding(g, pt, tested, target, nil); path != nil && bad == nil {
+				bad, badPath = call, path
+			}
+			return true
+		})
+		switch {
+		case nCalls == 0:
+			c.Undecided("C13-N3", fname+"/handler-error", fd.Pos(), "no call of the row handler")
+		case bad != nil:
+			c.Bad("C13-N3", fname+"/handler-error", bad.Pos(), "the error returned by the row handler is dropped or not tested before the next row: a failing comparison (Row.Equals error) is lost and the statement reports counts as if it had succeeded", c.P.DescribePath(badPath)...)
+		default:
+			c.Ok("C13-N3", fname+"/handler-error", fd.Pos(), "every handler error is tested")
+		}
+	}
+	// (6) the emitted row carries the handler's result, with its counts untouched
+	{
+		var resObj types.Object
+		var okCall *ast.CallExpr
+		ast.Inspect(fd.Body, func(n ast.Node) bool {
+			if as, ok := n.(*ast.AssignStmt); ok && len(as.Lhs) == 1 && len(as.Rhs) == 1 {
+				if call, ok := ast.Unparen(as.Rhs[0]).(*ast.CallExpr); ok && Callee(info, call) == okM {
+					resObj, okCall = objOf(as.Lhs[0]), call
+				}
+			}
+			return true
+		})
+		key := fname + "/result-flow"
+		if resObj == nil {
+			c.Undecided("C13-N3", key, fd.Pos(), "the handler's result is not bound to a variable")
+		} else {
+			msg := ""
+			// variables that (may) carry the result: the bound variable and everything computed from it
+			carries := map[types.Object]bool{resObj: true}
+			for changed := true; changed; {
+				changed = false
+				ast.Inspect(fd.Body, func(n ast.Node) bool {
+					if as, ok := n.(*ast.AssignStmt); ok {
+						from := false
+						for _, r := range as.Rhs {
+							for o := range carries {
+								if dmlMentions(info, r, o, false) {
+									from = true
+								}
+							}
+						}
+						if from {
+							for _, l := range as.Lhs {
+								if o := objOf(l); o != nil && !carries[o] {
+									carries[o] = true
+									changed = true
+								}
+							}
+						}
+					}
+					return true
+				})
+			}
+			mentionsResult := func(x ast.Expr) bool {
+				for o := range carries {
+					if dmlMentions(info, x, o, false) {
+						return true
+					}
+				}
+				return false
+			}
+			ast.Inspect(fd.Body, func(n ast.Node) bool {
+				switch x := n.(type) {
+				case *ast.AssignStmt:
+					for i, l := range x.Lhs {
+						if objOf(l) == resObj && !(len(x.Rhs) == 1 && i == 0 && ast.Unparen(x.Rhs[0]) == ast.Expr(okCall)) {
+							msg = "the variable holding the handler's result is overwritten at " + c.P.Rel(x.Pos())
+						}
+						if sel, ok := ast.Unparen(l).(*ast.SelectorExpr); ok && objOf(sel.X) == resObj && (sel.Sel.Name == e.nm.okAffected || sel.Sel.Name == e.nm.okInfo) {
+							msg = "the handler's " + sel.Sel.Name + " is overwritten at " + c.P.Rel(x.Pos())
+						}
+					}
+				case *ast.ReturnStmt:
+					if pt, ok := FindNode(g, okCall); ok && len(x.Results) == 2 && isNilIdent(info, x.Results[1]) {
+						// a successful return reachable from the result: it must hand on the result variable
+						reach := false
+						for _, rn := range ReachableNodes(g, pt, nil, nil) {
+							if rn == ast.Node(x) {
+								reach = true
+							}
+						}
+						if reach && !mentionsResult(x.Results[0]) {
+							msg = "the successful return at " + c.P.Rel(x.Pos()) + " does not hand on the handler's result"
+						}
+					}
+				}
+				return true
+			})
+			c.Check(msg == "", "C13-N3", key, okCall.Pos(), "the emitted row is built from the handler's result", msg+": the client sees counts that are not the handler's")
+		}
+	}
+}
+
+// ---- N2 (source of the flag): the callers of the choosing function ---------------------------------
+
+func c13RunN2Source(e *c13Env) {
+	c := e.c
+	sig := e.dispFn.Type().(*types.Signature)
+	flagIdx := -1
+	for i := 0; i < sig.Params().Len(); i++ {
+		if sig.Params().At(i) == e.flagPar {
+			flagIdx = i
+		}
+	}
+	n := 0
+	for _, f := range e.pk.Syntax {
+		for _, d := range f.Decls {
+			fd, ok := d.(*ast.FuncDecl)
+			if !ok || fd.Body == nil || fd == e.disp {
+				continue
+			}
+			for _, call := range dmlCallsIn(fd.Body, true) {
+				if Callee(e.info, call) != e.dispFn || flagIdx < 0 || flagIdx >= len(call.Args) {
+					continue
+				}
+				n++
+				key := "flag-source/" + DeclName(fd)
+				x := ast.Unparen(call.Args[flagIdx])
+				if id, isID := x.(*ast.Ident); isID {
+					// the single definition of the variable in the caller
+					obj := e.info.Uses[id]
+					var def ast.Expr
+					defs := 0
+					ast.Inspect(fd.Body, func(m ast.Node) bool {
+						if as, ok := m.(*ast.AssignStmt); ok {
+							for i, l := range as.Lhs {
+								if lid, ok := l.(*ast.Ident); ok && (e.info.Defs[lid] == obj || e.info.Uses[lid] == obj) && obj != nil {
+									defs++
+									if len(as.Rhs) == len(as.Lhs) {
+										def = as.Rhs[i]
+									}
+								}
+							}
+						}
+						return true
+					})
+					if defs == 1 && def != nil {
+						x = ast.Unparen(def)
+					}
+				}
+				// (caps & CLIENT_FOUND_ROWS) > 0   |   != 0
+				okShape, why := false, "the flag is not computed as (capabilities & CLIENT_FOUND_ROWS) > 0"
+				if be, ok := x.(*ast.BinaryExpr); ok && (be.Op == token.GTR || be.Op == token.NEQ) {
+					if zv := e.info.Types[be.Y].Value; zv != nil && zv.Kind() == constant.Int && constant.Sign(zv) == 0 {
+						if and, ok := ast.Unparen(be.X).(*ast.BinaryExpr); ok && and.Op == token.AND {
+							for _, op := range []ast.Expr{and.X, and.Y} {
+								if v := e.info.Types[op].Value; v != nil && v.Kind() == constant.Int {
+									if iv, exact := constant.Int64Val(v); exact && iv == 2 {
+										okShape = true
+									} else {
+										why = fmt.Sprintf("the capability mask is %s; CLIENT_FOUND_ROWS is bit 0x2 of the MySQL handshake capabilities", v.ExactString())
+									}
+								}
+							}
+						}
+					}
+				}
+				c.Check(okShape, "C13-N2", key, call.Pos(), "flag = capabilities & 0x2 (CLIENT_FOUND_ROWS) != 0", why+": UPDATE and INSERT … ON DUPLICATE KEY UPDATE report the wrong affected-rows variant")
+			}
+		}
+	}
+	if n == 0 {
+		c.Undecided("C13-N2", "flag-source", e.disp.Pos(), "the choosing function has no caller in the package")
+	}
 }
 
 // ---- N4: REPLACE deletes at most one row per emitted row -------------------------------------------
